@@ -24,7 +24,8 @@ all at the same trial index, over the full length; (inputs) in _sample_continuou
 variable of the value being generated, that loop runs over the block's trial count, exactly one generated value is
 appended per trial and the list is stored under the factor's own name in the dict that is returned; (window) in
 ContinuousFactorWindow.get_window_val the entry stored under key -k is read at index idx - k of the same factor, for k
-over range(width), and the not-yet-defined / skipped-by-stride branches return NaN entries; (merge)
+over range(width), every such read is reached only when its index is non-negative (idx - k >= 0 or idx >= width - 1), and
+the not-yet-defined / skipped-by-stride branches return NaN entries; (merge)
 synthesize_trials, when the block has continuous factors, calls block.sample_continuous once per returned
 experiment with that experiment's own discrete trials and copies every key of the result into it.
 """
